@@ -160,6 +160,20 @@ def prime_candidates(ctx):
               850, 1299, 1300):
         for d in (-1, 1, -3, 3, 15, -15) + tuple(rng.randrange(-2000, 2000) | 1 for _ in range(2 if ctx.quick else 12)):
             out.append(((1 << k) + d, "pow2edge"))
+    # the prime factors of the witnesses of the well-known deterministic Miller-Rabin base sets (Jaeschke; Sinclair's seven bases
+    # for 2^64; the first primes): a witness that is 0 modulo n proves nothing, and an implementation that does not skip it
+    # rejects exactly these PRIMES (round-8 seed C16-mut60-2: 299210837 divides 1795265022); also their squares and doubles
+    for base in (2, 3, 5, 7, 11, 13, 17, 19, 23, 29, 31, 37, 41, 61, 73, 325, 9375, 28178, 450775, 9780504, 1795265022, 31 * 73, 1662803,
+                 3215031751, 4759123141, 1122004669633, 2152302898747, 3474749660383, 341550071728321, 3825123056546413051):
+        m, f = base, 2
+        while f * f <= m and f < (1 << 22):
+            if m % f == 0:
+                out += [(f, "mr-base-factor"), (f * f, "mr-base-factor-square"), (2 * f, "mr-base-factor-double")]
+                while m % f == 0:
+                    m //= f
+            f += 1
+        if m > 1:
+            out += [(m, "mr-base-factor"), (m + 2, "mr-base-factor+2")]
     from ecdsa.curves import curves
     for cv in curves:
         out.append((cv.curve.p(), "curve_p"))
@@ -423,6 +437,7 @@ def search(ctx):
             viol(b)
     # next_prime
     for n in list(range(-3, 2000)) + [1229, 1230, 1231, 1229 ** 2 - 1, 2 ** 31 - 1, 2 ** 61 - 1] + \
+            [m - 2 for m, tg in prime_candidates(ctx) if tg == "mr-base-factor" and 1229 < m < 2 ** 40] + \
             [ctx.rng.getrandbits(ctx.rng.choice([20, 40, 63])) for _ in range(20 if ctx.quick else 300)]:
         n_eval += 1
         b = check_next_prime(nt, n)
